@@ -27,6 +27,7 @@ type Var struct {
 	Module   bool   // declared at module scope
 	Alias    *Var   // read-only alias of another variable (same name): evaluators follow it
 	UID      int
+	ConstInit bool // let whose initialiser is a const-expression (backends may fold through it)
 	// error-injection switches (printer only)
 	DropGroup, DropBinding bool
 }
